@@ -3571,9 +3571,10 @@ Hgetntinfo(const int32 numbertype, hdf_ntinfo_t *nt_info)
 int
 hi_close_stdio(FILE **f)
 {
-    if (EOF == fclose(*f))
-        return FAIL;
+    int status = fclose(*f);
+
+    /* whether or not fclose() reports an error, the stream is gone and must not be used again */
     *f = NULL;
-    return SUCCEED;
+    return (status == EOF) ? FAIL : SUCCEED;
 }
 #endif
